@@ -379,8 +379,15 @@ def prefix_idiom(ctx: Ctx, f, lst: Optional[str], nump: str, frame=None, env=Non
     if isinstance(e, (ast.ListComp, ast.GeneratorExp)) and len(e.generators) == 1 and not e.generators[0].ifs:
         gen = e.generators[0]
         src = live_value(gen.iter)
-        if isinstance(src, ast.Call) and ctx.an.scope(f).callee(src).name.endswith("takewhile") and len(src.args) == 2 and isinstance(src.args[0], ast.Lambda):
-            lam, inner = src.args[0], live_value(src.args[1])
+        pred = src.args[0] if isinstance(src, ast.Call) and len(src.args) == 2 else None
+        if isinstance(pred, ast.Name):
+            # a local `def still_wanted(pair): return <condition>` used as the predicate reads like the lambda it is
+            defs_ = [x for x in ast.walk(frame.node) if isinstance(x, ast.FunctionDef) and x.name == pred.id]
+            body_ = [b for b in defs_[0].body if not (isinstance(b, ast.Expr) and isinstance(b.value, ast.Constant))] if len(defs_) == 1 else []
+            if len(body_) == 1 and isinstance(body_[0], ast.Return) and body_[0].value is not None and not defs_[0].decorator_list:
+                pred = ast.copy_location(ast.Lambda(args=defs_[0].args, body=body_[0].value), defs_[0])
+        if isinstance(src, ast.Call) and ctx.an.scope(f).callee(src).name.endswith("takewhile") and len(src.args) == 2 and isinstance(pred, ast.Lambda):
+            lam, inner = pred, live_value(src.args[1])
             pair_ok = isinstance(gen.target, ast.Tuple) and len(gen.target.elts) == 2 and all(isinstance(x, ast.Name) for x in gen.target.elts) \
                 and isinstance(e.elt, ast.Name) and e.elt.id == gen.target.elts[1].id
             enum_ok = isinstance(inner, ast.Call) and isinstance(inner.func, ast.Name) and inner.func.id == "enumerate" and len(inner.args) == 1 and not inner.keywords
@@ -396,12 +403,18 @@ def prefix_idiom(ctx: Ctx, f, lst: Optional[str], nump: str, frame=None, env=Non
                     return isinstance(x, ast.Name) and x.id == nump and x.id in frame.param_names()
 
                 bound = None
+                neg_ = False
+                while isinstance(c, ast.UnaryOp) and isinstance(c.op, ast.Not):
+                    c, neg_ = c.operand, not neg_
                 if isinstance(c, ast.Compare) and len(c.ops) == 1:
                     l_, r_ = c.left, c.comparators[0]
+                    op_ = type(c.ops[0])
+                    if neg_:
+                        op_ = {ast.GtE: ast.Lt, ast.Gt: ast.LtE, ast.Lt: ast.GtE, ast.LtE: ast.Gt}.get(op_, type(None))
                     if is_index(l_) and is_num(r_):
-                        bound = isinstance(c.ops[0], ast.Lt)
+                        bound = op_ is ast.Lt
                     elif is_num(l_) and is_index(r_):
-                        bound = isinstance(c.ops[0], ast.Gt)
+                        bound = op_ is ast.Gt
                 if rv is None or bound is None:
                     return None, "unrecognised takewhile arguments"
                 return (rv and bound), ("takewhile(index < num) over enumerate(reversed(running))" if rv and bound
